@@ -206,8 +206,10 @@ def parse_entry(b):
     try:
         wrap = tree.body[0]
         fn = wrap.body[0]
-        assert isinstance(fn, ast.FunctionDef) and fn.name == "__DISPATCH__"
-        assert isinstance(wrap.body[1], ast.Return) and wrap.body[1].value.id == "__DISPATCH__" and len(tree.body) == 1 and len(wrap.body) == 2
+        # the wrapper is recognised by its shape (one parameter OVLD, an inner def, `return <that def>`), not by the two names
+        assert isinstance(wrap, ast.FunctionDef) and [x.arg for x in wrap.args.args] == ["OVLD"]
+        assert isinstance(fn, ast.FunctionDef)
+        assert isinstance(wrap.body[1], ast.Return) and wrap.body[1].value.id == fn.name and len(tree.body) == 1 and len(wrap.body) == 2
     except Exception:
         raise Unparsed("wrapper shape")
     if glb.get("MISSING") is not MISSING:
@@ -343,8 +345,11 @@ def parse_entry(b):
             except Exception:
                 raise Unparsed("optional-keyword block")
             body.append([2, t, kn, v, tn, f, ta])
-        elif isinstance(s, ast.If) and not s.orelse and missing_test(s.test, ast.Is) is not None:
+        elif isinstance(s, ast.If) and missing_test(s.test, ast.Is) is not None and (not s.orelse or isinstance(s.body[-1], ast.Return)):
+            # `if t: ...; return X` followed by an else branch is the same program as the branch's statements placed after
+            # the if (the body always returns): an if / elif / else layout of the chain is read as the successive ifs
             body.append([3, missing_test(s.test, ast.Is), call(s.body)])
+            stmts[i + 1:i + 1] = list(s.orelse)
         elif isinstance(s, ast.Assign):
             body.append([4, call(stmts[i:i + 2])])
             i += 1
